@@ -419,11 +419,12 @@ func (c *Ctx) ruleLastActionWins() {
 func init() {
 	register(&Check{
 		ID: "C11",
-		Expl: "Decides the structural conditions of UPDATE packing: (E6.cage-reuse) routes share a message only after a byte comparison of their attribute sets and, for MP families, of the next-hop key; (E6.nexthop-key) that key covers every next hop written into the message; (E4.size-budget / E6.addpath-direction / E4.extended-message-types) the packers budget with the two protocol maxima, the send direction of ADD-PATH and the same message-type set as the serialiser; " +
+		Expl: "(E6.session-options) the size limit and ADD-PATH modes the sender packs and serialises under are rewritten on every establishment. Decides the structural conditions of UPDATE packing: (E6.cage-reuse) routes share a message only after a byte comparison of their attribute sets and, for MP families, of the next-hop key; (E6.nexthop-key) that key covers every next hop written into the message; (E4.size-budget / E6.addpath-direction / E4.extended-message-types) the packers budget with the two protocol maxima, the send direction of ADD-PATH and the same message-type set as the serialiser; " +
 			"(E6.oversize-contained) a message that fails to serialise is skipped, counted and does not touch the connection; (E6.last-action-wins) de-duplication is keyed by the path's local key and End-of-RIB bypasses it. Also: (E2.send-side-copy) the 2-octet-AS send conversion edits a private copy of the attribute list that the packer shares between the UPDATEs of one group; (E6.last-action-wins) the recording pass is unconditional.",
 		Not: "Per-NLRI worst-case size arithmetic, boundary sizes and the equivalence of the packed messages with the change list over all inputs are not decided.",
 		Run: func(c *Ctx) {
 			c.ruleRatchets("C11")
+			c.ruleSessionOptionsRefreshed("E6.session-options", map[string]bool{"extendedMessage": true, "familyMap": true}, 2)
 			c.ruleCheckedIsEmitted("E3.checked-is-emitted")
 			c.rulePackSerializeSameOptions("E6.pack-serialize-same-options", 2)
 			c.ruleCageReuse()
